@@ -365,6 +365,7 @@ def tf_crlf(tpl):
 
 TRANSFORMERS = {'ends-with-last-tag': tf_eof, 'starts-with-first-tag': tf_bof, 'multi-byte-text': tf_multibyte, 'inside-skip': tf_wrap('skip'), 'inside-pending': tf_wrap('pending'),
                 'inside-unregistered': tf_wrap('unregistered'), 'inside-ready-skip': tf_wrap('ready-skip'), 'quoted-attribute-noise': tf_attr_noise,
+                'cr-lf-line-ends': tf_crlf, 'cr-lf-line-ends+ends-with-last-tag': lambda t: tf_eof(tf_crlf(t)),
                 'multi-byte-text+ends-with-last-tag': lambda t: tf_eof(tf_multibyte(t)), 'multi-byte-text+starts-with-first-tag': lambda t: tf_bof(tf_multibyte(t))}
 
 
@@ -384,6 +385,66 @@ def transformed_jobs(prop, tier, seed, harness='pipe_clean', extra_params=None):
             params = dict(tpl=instantiate(tpl, sizes), prop=prop)
             params.update(extra_params or {})
             jobs.append(dict(harness=harness, label=f'{n} [{t}] holes={sizes}', params=params))
+    return jobs
+
+
+# ---------------------------------------------------------------- large fixed documents (thresholds: nesting depth, element count, buffer sizes)
+def scale_templates():
+    """concrete documents far beyond the hole templates in one dimension each; one or two small holes keep the solver in the loop"""
+    T = {}
+    # 130 pending elements nested in a ready unwrap block, a pending element of the outer tag name innermost
+    deep = ["A\n", O('t', RT + ' unwrap-block'), "\n{\n"]
+    for k in range(130):
+        deep += [O('m', PN), "\n"]
+    deep += ["  ", O('t', PT), "\n  keep();\n  ", C('t'), "\n", H(1, 'txt'), "tail();\n"]
+    for k in range(130):
+        deep += [C('m'), "\n"]
+    deep += ["}\n", C('t'), "\nB\n"]
+    T['scale-nesting-depth-130'] = deep
+    # the same depth with ready elements only (every level removable)
+    deep2 = ["A\n"]
+    for k in range(140):
+        deep2 += [O('m', RX), "x"]
+    deep2 += [H(1, 'txt')]
+    for k in range(140):
+        deep2 += [C('m')]
+    T['scale-ready-nesting-depth-140'] = deep2 + ["\nB\n"]
+    # 300 sibling elements, ready and pending alternating, block and inline
+    many = ["A\n"]
+    for k in range(300):
+        many += [O('t', RT if k % 2 == 0 else PT), ("\nx%d\n" % k) if k % 3 == 0 else ("y%d" % k), C('t'), "\n" if k % 5 else " "]
+    T['scale-300-siblings'] = many + [H(1, 'txt'), "B\n"]
+    # a 20 KB document: multi-byte lines, elements placed so that byte offsets 4096, 8192 and 16384 fall inside tags / characters
+    big = []
+    line = "あいうえおかきくけこさしすせそたちつてとなにぬねのはひふへほ\n"   # 91 bytes
+    nbytes = 0
+    k = 0
+    while nbytes < 20000:
+        if k % 12 == 5:
+            big += [O('m', "name='x' c='" + "é" * 10 + "'"), "\nremoved " + "語" * 8 + "\n", C('m'), "\n"]
+            nbytes += 90
+        elif k % 12 == 9:
+            big += [O('t', PT), "pending", C('t'), " "]
+            nbytes += 60
+        else:
+            big += [line]
+            nbytes += 91
+        k += 1
+    T['scale-20KB-multibyte'] = ["A", H(1, 'txt'), "\n"] + big + ["B\n"]
+    # one very long line (9000 characters) with inline elements
+    T['scale-long-line'] = ["x" * 4090, O('m', RX), "q" * 10, C('m'), "é" * 2050, O('t', RT), "r", C('t'), H(1, 'txt'), "y" * 3000, "\n"]
+    return T
+
+
+def scale_jobs(prop, tier, harness='pipe_clean', extra_params=None):
+    jobs = []
+    names = ['scale-nesting-depth-130', 'scale-long-line'] if tier == 'quick' else None
+    for name, tpl in scale_templates().items():
+        if names and name not in names:
+            continue
+        params = dict(tpl=instantiate(tpl, [1]), prop=prop)
+        params.update(extra_params or {})
+        jobs.append(dict(harness=harness, label=f'{name} holes=[1]', params=params))
     return jobs
 
 
@@ -640,7 +701,7 @@ def c01_pipe_jobs(tier, seed):
                 jobs.append(dict(harness='c01_pipe', label=f'{name} holes={sizes} cfg={cname}',
                                  params=dict(tpl=instantiate(tpl, sizes), cfg=cfg, wrapper='wrapper' in name)))
     tj = transformed_jobs('C01', tier, seed, harness='c01_pipe', extra_params=dict(cfg={}, wrapper=False))
-    return jobs + (tj[:24] if tier == 'quick' else tj)
+    return jobs + (tj[:24] if tier == 'quick' else tj) + scale_jobs('C01', tier, harness='c01_pipe', extra_params=dict(cfg={}, wrapper=False))
 
 
 # ---------------------------------------------------------------- C06 marker / skip / tag-name decision
